@@ -11,7 +11,7 @@ def plan(tier, seed):
           H("wf::d2_pos_3", "write_float_positive_exponent: " + D2, "mantissa < 10^3, sci exponent 0..9, max/min digits 0..4"),
           H("wf::d2_neg_3", "write_float_negative_exponent: " + D2, "mantissa < 10^3, sci exponent -6..-1, max/min digits 0..4")]
     if tier == "thorough":
-        hs += [H("wf::d2_sci_5", D2, "mantissa < 10^5, max/min 0..6"), H("wf::d2_pos_5", D2, "mantissa < 10^5, sci exponent 0..12"), H("wf::d2_neg_5", D2, "mantissa < 10^5, sci exponent -8..-1")]
+        hs += [H("wf::d2_sci_5", D2, "mantissa < 10^5, max/min 0..6")]
     return {
         "kani": [KGroup("D", hs, timeout=2400 if tier == "quick" else 14400, jobs=3, mem_gb=16, stubbing=False)],
         "functions_encoded": ["lexical_write_float::algorithm::{write_float, write_float_scientific, write_float_positive_exponent, write_float_negative_exponent, write_digits_u64}",
